@@ -276,17 +276,11 @@ func (x *Exec) builtin(st *State, c *ast.CallExpr, name string) []Value {
 		m := x.expr(st, c.Args[0])
 		mt := m.Ty.Underlying().(*types.Map)
 		k := x.convertTo(st, x.expr(st, c.Args[1]), mt.Key(), c.Pos())
-		// delete on a nil map is a no-op in Go
-		sub := st.clone()
-		x.vc.mapDelete(sub, mt, m.T, k.T)
-		isNil := tEq(m.T, mathInt(0))
-		names, _ := x.vc.heapVars(x.vc.mapKind(mt))
-		for _, n := range names {
-			if nv, ok := sub.heaps[n]; ok {
-				old := x.vc.heap(st, n, nv.Sort)
-				st.heaps[n] = tIte(isNil, old, nv)
-			}
-		}
+		// delete on a nil map is a no-op in Go. The model applies the update to
+		// object 0 as well: nothing can observe object 0's content precisely
+		// (a nil map's content is unconstrained in the model), so this is an
+		// over-approximation of the real behaviour, never an under-approximation.
+		x.vc.mapDelete(st, mt, m.T, k.T)
 		return nil
 	case "min", "max":
 		a := x.expr(st, c.Args[0])
